@@ -41,7 +41,7 @@ var c11Thorough = []c11Space{
 }
 
 var c11RandBS = []int{1, 2, 3, 7, 64, 1000, 4096, 65536}
-var c11Shapes = []string{"nomatch", "phases", "wrapmatch", "lowentropy", "tailprefix", "exact4m", "fresh-tail", "disjoint-at-wrap"}
+var c11Shapes = []string{"constant-run", "nomatch", "phases", "wrapmatch", "lowentropy", "tailprefix", "exact4m", "fresh-tail", "disjoint-at-wrap"}
 
 func c11Cases(tier string, seed uint64, flavor string) []lib.Case {
 	var cases []lib.Case
@@ -300,6 +300,21 @@ func c11Rand(s c11Spec, res *lib.Result) {
 	case "fresh-tail": // matches first, then a fresh tail of about 4 MiB (+/- a block)
 		nd = append(nd, oldBlocks(3)...)
 		nd = append(nd, junk(M4+r.PickInt([]int{-bs - 1, -1, 0, 1, bs - 1, bs, bs + 1, 2 * bs}))...)
+	case "constant-run": // matched head, then more than 4 MiB of ONE repeated byte value that no old block has, then a matched tail
+		for i := range olds {
+			for k := range olds[i] {
+				if olds[i][k] == 0xEE {
+					olds[i][k] = 0xED
+				}
+			}
+		}
+		nd = append(nd, oldBlocks(3)...)
+		run := make([]byte, r.PickInt([]int{M4 + 1, M4 + bs, 2*M4 + 3*bs + 1, 9 * lib.MB}))
+		for k := range run {
+			run[k] = 0xEE
+		}
+		nd = append(nd, run...)
+		nd = append(nd, oldBlocks(2)...)
 	case "disjoint-at-wrap":
 		// new content that can never match (byte values disjoint from the old files) and ends exactly at / next to
 		// the point where the working buffer (4 MiB + 2 blocks) wraps: the differ is rolling when the input ends
